@@ -30,6 +30,7 @@ type seqSpec struct {
 	watermark  time.Duration // nats: server high watermark, with handlers slow enough to build a backlog older than it
 	abort      *request      // pipe/tcp: sent on an extra connection that is closed at once, before the reply can be read
 	burst      bool          // probe: all frames of a connection written with one Write
+	keepAlive  bool          // http probe: every concurrent poster keeps its own connection to the server open
 	reqs       []*request
 	perConn    [][]*request
 	sentinel   []*request
@@ -509,9 +510,15 @@ func runSequence(s *seqSpec, broker *rig.NatsServer) *seqResult {
 		}
 	case "http":
 		leg := startHTTPLeg(s.proto)
+		if s.keepAlive {
+			leg.keepAlive(s.conns)
+		}
 		var next int64 = -1
 		var wg sync.WaitGroup
 		deadline := time.Now().Add(watchdog)
+		if len(s.reqs) > 1000 {
+			deadline = time.Now().Add(6 * watchdog) // thousands of posts on a loaded machine
+		}
 		for w := 0; w < s.conns; w++ {
 			wg.Add(1)
 			go func() {
@@ -558,7 +565,17 @@ func runSequence(s *seqSpec, broker *rig.NatsServer) *seqResult {
 						res.mu.Unlock()
 					default:
 						hdrs, _, err := wire.ParseFrame(f)
-						if err == nil && hdrs["_opid"] != r.opid {
+						if err != nil {
+							// the decoded body is not a well-formed frame (size bytes that
+							// do not count what follows, undecodable header block): there
+							// is no reader that announces it as a stray on this leg
+							r.mu.Lock()
+							r.badFrame = f
+							r.badFrameWhy = err.Error()
+							r.mu.Unlock()
+							break
+						}
+						if hdrs["_opid"] != r.opid {
 							why := fmt.Sprintf("the HTTP response to the request with op id %s carries op id %q", r.opid, hdrs["_opid"])
 							if o := res.byOpid[hdrs["_opid"]]; o != nil {
 								why += fmt.Sprintf(" - the op id of request %d (%s) of this sequence", o.idx, o.kindName())
@@ -896,6 +913,9 @@ func judge(run verdictSink, s *seqSpec, res *seqResult) {
 			continue
 		}
 		if judgeWithinLimit(run, s, r, witness) {
+			continue
+		}
+		if judgeHTTPBody(run, s, r, witness) {
 			continue
 		}
 		if r.sendErr != "" {
